@@ -801,3 +801,16 @@ Proof.
     cbn [push_event upd_header s_crc]. rewrite Cr2, <- write_app. change ([14] ++ [ver; p0; p1; d0; d1; d2; d3; 46; 70; 73; 84]) with L12.
     rewrite Hc01, N.eqb_refl. cbn [negb]. rewrite <- Hc01. exact Hfin.
 Qed.
+
+(* string arrays of known fields: non-empty clean elements, at least one *)
+Lemma field_rt_strings big mn f ss : create_field mn (f_num f) = mkfield (f_fb f) true VInvalid false -> f_known f = true -> f_expanded f = false ->
+  f_value f = VStrs ss -> Forall (fun s => clean s /\ s <> []) ss -> ss <> [] -> f_base f = bt_string -> fb_array (f_fb f) = true ->
+  size (VStrs ss) <= 255 -> field_rt big mn f.
+Proof.
+  intros Hc Hk He Hv Hss Hne Hb Ha Hsz. apply known_is_rt. unfold field_rt_known. split; [exact Hc|]. split; [exact Hk|]. split; [exact He|]. rewrite Hb. split; [reflexivity|].
+  rewrite Hv, Ha. eexists. split; [reflexivity|].
+  assert (Hpos : 0 < size (VStrs ss)).
+  { cbn [size]. destruct (fold_left (fun acc s => acc + str_size s) ss 0 =? 0) eqn:E; [lia|]. apply N.eqb_neq in E. lia. }
+  split; [split; [exact Hpos|exact Hsz]|]. split; [change (bt_size bt_string) with 1; lia|].
+  apply roundtrip_strings; [exact Hss|exact Hne|reflexivity].
+Qed.
